@@ -155,9 +155,14 @@ def gen_program(seed: int) -> Dict[str, Any]:
             ops.append({"op": "merge", "master": a, "slave": b})
     if rs.chance(0.4):
         ops.append({"op": "default_patch", "name": rs.pick(["defaultFaces", "remaining"]), "kind": rs.pick(["wall", "patch", "empty"])})
-    if used and rs.chance(0.5):
-        ops.append({"op": "modify_patch", "name": rs.pick(used), "kind": rs.pick(["wall", "symmetry", "cyclic"]),
-                    "settings": rs.pick([None, ["inGroups (g1)"], ["neighbourPatch other", "transform none"]])})
+    if used:
+        # a patch may be modified several times; the last type wins, settings are replaced
+        # only when given (an empty list is given: it clears them)
+        nmod = rs.weighted([(0, 4), (1, 3), (2, 2), (3, 1)])
+        focus = rs.pick(used)
+        for _ in range(nmod):
+            ops.append({"op": "modify_patch", "name": focus if rs.chance(0.6) else rs.pick(used), "kind": rs.pick(["wall", "symmetry", "cyclic", "patch"]),
+                        "settings": rs.pick([None, [], ["inGroups (g1)"], ["neighbourPatch other", "transform none"]])})
     if rs.chance(0.3):
         ops.append({"op": "setting", "key": "scale", "value": rs.pick([0.001, 1, 0.5])})
     if rs.chance(0.15):
